@@ -73,6 +73,21 @@ impl Environment<Stdin, Stdout> {
     }
 }
 
+#[cfg(rrss_verif)]
+impl<I, O> Environment<I, O> {
+    /// verification hook: reports the state left behind by the statement on `line`
+    pub fn verif_emit_stmt(&self, line: u32, control_flow: &'static str) {
+        if crate::verif::is_active() {
+            crate::verif::emit(crate::verif::StmtEvent {
+                line,
+                control_flow,
+                scopes: self.symbols.iter().map(|t| t.verif_entries()).collect(),
+                last_access: self.last_access.clone(),
+            })
+        }
+    }
+}
+
 impl<I, O> Environment<I, O> {
     pub fn push_scope(&mut self) {
         self.symbols.push(SymTable::new())
